@@ -5,7 +5,7 @@ rt(v):  b = produce(v);  b == ref(v);  d = parse(b);  fields(d) == v, consumed =
 import itertools
 
 from vrt import glue, sim, ref_cip as ref
-from vrt.ob import define, obligation
+from vrt.ob import define, obligation, concretize
 import cpppo
 from cpppo.server.enip import parser, device, logix
 
@@ -935,8 +935,8 @@ def do_generic(svc, c, i, data, status):
 
 
 define(globals(), 'C01', 'svc_generic_service_code', ['svc', 'c', 'i', 'd0', 'd1', 'status'], "return do_generic(svc, c, i, [d0, d1], status)",
-       ['0x20 <= svc <= 0x49 and 0 <= c <= 0xFFFF and 0 <= i <= 0xFFFF', inr(['d0', 'd1', 'status'])], timeout=900, path_timeout=120, drives=SVC_DRIVES,
-       bounds='generic service code 0x20..0x49 (no dedicated parser): request produce, reply round trip with 2 data bytes', outside='')
+       ['0x20 <= svc <= 0x27 and 0 <= c <= 0xFFFF and 0 <= i <= 0xFFFF', inr(['d0', 'd1', 'status'])], timeout=900, path_timeout=120, drives=SVC_DRIVES,
+       bounds='generic service code 0x20..0x27 (no dedicated parser): request produce, reply round trip with 2 data bytes', outside='')
 
 
 # ---- Multiple Service Packet: offsets --------------------------------------------------------------------------------------------------
@@ -1080,25 +1080,39 @@ def C(size):
     return conn(0x11223344, 0x00012345, size, 1, 0, 2, 0)
 
 
-RANGES = {'small': (1, 0x1FF), 'large': (0x200, 0xFFFF)}
-for shape in ('small_small', 'large_large', 'small_large', 'large_small'):
+SIZES = {'small': (1, 2, 255, 256, 510, 511), 'large': (512, 513, 4000, 32768, 65534, 65535)}
+
+
+def fo_side(shape, side, cid, rpi, sz, bits, ptt, ticks, serial, vendor, oserial, mult, transport):
+    """the connection parameter FIELDS are chosen by selectors (6 boundary sizes x all 64 combinations of variable/priority/type/redundant): the bit
+    packing is then concrete per path (z3 cannot keep shifts/masks of symbolic ints cheap), ids/RPI/serials/header bytes stay solver variables"""
     o, t = shape.split('_')
+    mine = o if side == 'O_T' else t
+    other = t if side == 'O_T' else o
+    size = SIZES[mine][concretize(sz, 6)]
+    bits = concretize(bits, 64)
+    var, prio, ctype, red = bits & 1, (bits >> 1) & 3, (bits >> 3) & 3, (bits >> 5) & 1
+    sym = conn(cid, rpi, size, var, prio, ctype, red)
+    oth = C(400 if other == 'small' else 4000)
+    ot, to = (sym, oth) if side == 'O_T' else (oth, sym)
+    return do_forward_open_request(ot, to, ptt, ticks, serial, vendor, oserial, mult, transport)
+
+
+for shape in ('small_small', 'large_large', 'small_large', 'large_small'):
     for side in ('O_T', 'T_O'):
-        lo, hi = RANGES[o if side == 'O_T' else t]
-        other = 400 if (t if side == 'O_T' else o) == 'small' else 4000
-        sym = "conn(cid, rpi, size, var, prio, ctype, red)"
-        call = "%s, C(%d)" % (sym, other) if side == 'O_T' else "C(%d), %s" % (other, sym)
         define(globals(), 'C01', 'forward_open_request_%s_%s' % (shape, side),
-               ['cid', 'rpi', 'size', 'var', 'prio', 'ctype', 'red', 'ptt', 'ticks', 'serial', 'vendor', 'oserial', 'mult', 'transport'],
-               "return do_forward_open_request(%s, ptt, ticks, serial, vendor, oserial, mult, transport)" % call,
-               ['0 <= cid <= 0xFFFFFFFF and 0 <= rpi <= 0xFFFFFFFF and %d <= size <= %d and 0 <= var <= 1 and 0 <= prio <= 3 and 0 <= ctype <= 3 and 0 <= red <= 1' % (lo, hi),
+               ['cid', 'rpi', 'sz', 'bits', 'ptt', 'ticks', 'serial', 'vendor', 'oserial', 'mult', 'transport'],
+               "return fo_side(%r, %r, cid, rpi, sz, bits, ptt, ticks, serial, vendor, oserial, mult, transport)" % (shape, side),
+               ['0 <= cid <= 0xFFFFFFFF and 0 <= rpi <= 0xFFFFFFFF and 0 <= sz <= 5 and 0 <= bits <= 63',
                 inr(['ptt', 'ticks', 'mult', 'transport']), '0 <= serial <= 0xFFFF and 0 <= vendor <= 0xFFFF and 0 <= oserial <= 0xFFFFFFFF'],
-               tier='quick' if (shape, side) in (('small_small', 'O_T'), ('large_large', 'T_O'), ('small_large', 'O_T'), ('large_small', 'T_O'), ('large_small', 'O_T')) else 'thorough',
+               tier='quick' if (shape, side) in (('small_small', 'O_T'), ('large_large', 'T_O'), ('small_large', 'O_T'), ('large_small', 'T_O')) else 'thorough',
                timeout=1800, path_timeout=300, drives=FO_DRIVES,
-               bounds='Forward Open request with O->T %s / T->O %s connection; EVERY field of the %s connection symbolic (id, RPI 32 bit; size over the whole %s '
-                      'range; variable, priority, type, redundant over their full range) plus all scalar header fields; the other connection concrete; either '
-                      'side large => Large Forward Open with both parameter words in the 32-bit layout' % (o, t, side, o if side == 'O_T' else t),
-               outside='both connections symbolic at once; connection paths other than 1/0 -> @2/1')
+               symbolic=['cid, rpi (32 bit), header bytes, serials: solver variables', 'sz: selects one of 6 boundary sizes of the %s range' % (shape.split('_')[0 if side == 'O_T' else 1]),
+                         'bits: selects every combination of variable (2) x priority (4) x type (4) x redundant (2)'],
+               bounds='Forward Open request with O->T %s / T->O %s connection; the %s connection takes every combination of the parameter fields and 6 boundary sizes '
+                      '(selector-enumerated), ids/RPI/serials/header fields symbolic; the other connection concrete; either side large => Large Forward Open with both '
+                      'parameter words in the 32-bit layout' % (shape.split('_')[0], shape.split('_')[1], side),
+               outside='sizes other than the 6 boundary values per range; both connections varying at once; other connection paths')
 
 
 def do_forward_open_reply(large, oid, tid, serial, vendor, oserial, oapi, tapi, n, a0, a1, a2):
